@@ -618,7 +618,7 @@ class Exec(ExprMixin, SpecMixin, Engine):
                 for wn in con.ghost.get("witness", {}):
                     post.env[wn] = mk_int(fresh("wit_" + wn, INT))
             for nm, txt in clauses.items():
-                post.assume(self.spec(txt, ctx, state=post))
+                post.assume(self.spec(txt, ctx, state=post), tag="post:%s:%s" % (con.name, nm))
             if not self.feasible(post):
                 continue
             post.trace.append("%s->%s" % (con.name.split(".")[-1], kind))
